@@ -347,8 +347,8 @@ static double now(void) { struct timespec ts; clock_gettime(CLOCK_MONOTONIC, &ts
 int main(int argc, char **argv)
 {
     int i, sc = 0, thorough = 0; const char *replay = NULL, *prop = NULL; double t0 = now();
-    unsigned long runs = 0, runs_faulted = 0, n0, a, b, c; unsigned long singles = 0, suffixes = 0, pairs = 0, triples = 0, aborted_runs = 0;
-    char viol[8][900]; char violrp[8][64]; int nviol = 0; char samples[4][700]; int nsamples = 0; unsigned long o[3];
+    unsigned long runs = 0, runs_faulted = 0, n0, a, b, c; unsigned long singles = 0, suffixes = 0, pairs = 0, triples = 0, quads = 0, aborted_runs = 0, d;
+    char viol[8][900]; char violrp[8][64]; int nviol = 0; char samples[4][700]; int nsamples = 0; unsigned long o[4];
     setvbuf(stdout, NULL, _IOFBF, 1 << 16);
     for (i = 1; i < argc; i++) {
         if (!strcmp(argv[i], "--prop") && i + 1 < argc) prop = argv[++i];
@@ -365,7 +365,7 @@ int main(int argc, char **argv)
         int n = 0; unsigned long from = 0; const char *p = strchr(replay, ':');
         sc = atoi(replay);
         if (p && p[1] == 's') from = strtoul(p + 2, NULL, 10);
-        else if (p) for (p++; *p && *p != '-'; ) { char *e; o[n++] = strtoul(p, &e, 10); if (e == p || n >= 3) break; p = *e == ',' ? e + 1 : e; }
+        else if (p) for (p++; *p && *p != '-'; ) { char *e; o[n++] = strtoul(p, &e, 10); if (e == p || n >= 4) break; p = *e == ',' ? e + 1 : e; }
         run_plan(sc, o, n, from);
         printf("script %s, failing allocation calls: %s\n  faults injected: %lu of %lu allocation calls; trace: %s\n", scripts[sc].name, replay, shim_faults_hit, total_calls, trace);
         if (failed) { printf("VIOLATED: %s\n", fail_msg); return 1; }
@@ -374,7 +374,7 @@ int main(int argc, char **argv)
 #define RUN(N, FROM, COUNTER) do { unsigned long hit_; if (prog_buf) { prog_buf[0] = 'R'; prog_buf[1] = ' '; plan_str(prog_buf + 2, 100, sc, o, N, FROM); strcat(prog_buf, "\n"); } hit_ = run_plan(sc, o, N, FROM); runs++; if (hit_) { runs_faulted++; COUNTER++; if (aborted_run) aborted_runs++; } \
         if (nsamples < 4 && hit_ && (runs % 7) == 3) { char ps_[64]; plan_str(ps_, sizeof ps_, sc, o, N, FROM); snprintf(samples[nsamples++], 700, "script %s, failing allocation calls %s: %s", scripts[sc].name, ps_ + 2, trace[0] ? trace : "(every step completed normally or failed the documented way)"); } \
         if (failed && nviol < 8) { plan_str(violrp[nviol], 64, sc, o, N, FROM); snprintf(viol[nviol], 900, "%s", fail_msg); nviol++; } } while (0)
-    o[0] = o[1] = o[2] = 0;
+    o[0] = o[1] = o[2] = o[3] = 0;
     RUN(0, 0, singles); singles = 0; runs_faulted = 0;
     if (failed) goto report;
     n0 = total_calls;
@@ -386,11 +386,14 @@ int main(int argc, char **argv)
     for (a = 1; a <= n0 + 2 && nviol < 8; a++) for (b = a + 1; b <= n0 + 4 && nviol < 8; b++) { o[0] = a; o[1] = b; RUN(2, 0, pairs); }
     if (scripts[sc].triples && (thorough || n0 <= 12))
         for (a = 1; a <= n0 + 1 && nviol < 8; a++) for (b = a + 1; b <= n0 + 2 && nviol < 8; b++) for (c = b + 1; c <= n0 + 4 && nviol < 8; c++) { o[0] = a; o[1] = b; o[2] = c; RUN(3, 0, triples); }
+    /* thorough: every set of four failing calls as well */
+    if (thorough)
+        for (a = 1; a <= n0 + 1 && nviol < 8; a++) for (b = a + 1; b <= n0 + 2 && nviol < 8; b++) for (c = b + 1; c <= n0 + 3 && nviol < 8; c++) for (d = c + 1; d <= n0 + 4 && nviol < 8; d++) { o[0] = a; o[1] = b; o[2] = c; o[3] = d; RUN(4, 0, quads); }
 report:
     printf("{\"world\":\"faultx\",\"config\":%d,\"config_desc\":\"script %s: %lu allocation calls when nothing fails\",\"property\":\"C16\",\"thorough\":%d,"
            "\"evaluations\":%lu,\"nontrivial_states\":%lu,\"exhaustive\":%s,\"closure\":%s,\"wall_s\":%.3f,"
-           "\"counters\":{\"runs_with_single_fault\":%lu,\"runs_with_failing_suffix\":%lu,\"runs_with_two_faults\":%lu,\"runs_with_three_faults\":%lu,\"runs_ending_in_documented_abort\":%lu},\"samples\":[",
-           sc, scripts[sc].name, n0, thorough, runs, runs_faulted, nviol ? "false" : "true", nviol ? "false" : "true", now() - t0, singles, suffixes, pairs, triples, aborted_runs);
+           "\"counters\":{\"runs_with_single_fault\":%lu,\"runs_with_failing_suffix\":%lu,\"runs_with_two_faults\":%lu,\"runs_with_three_faults\":%lu,\"runs_with_four_faults\":%lu,\"runs_ending_in_documented_abort\":%lu},\"samples\":[",
+           sc, scripts[sc].name, n0, thorough, runs, runs_faulted, nviol ? "false" : "true", nviol ? "false" : "true", now() - t0, singles, suffixes, pairs, triples, quads, aborted_runs);
     for (i = 0; i < nsamples; i++) { const char *s; if (i) printf(","); putchar('"'); for (s = samples[i]; *s; s++) { if (*s == '"' || *s == '\\') putchar('\\'); if ((unsigned char)*s >= 0x20) putchar(*s); } putchar('"'); }
     printf("],\"violations\":[");
     for (i = 0; i < nviol; i++) { const char *s; printf("%s{\"replay\":\"%s\",\"ops\":\"script %s with failing allocation calls %s\",\"message\":\"", i ? "," : "", violrp[i], scripts[sc].name, violrp[i] + 2); for (s = viol[i]; *s; s++) { if (*s == '"' || *s == '\\') putchar('\\'); if ((unsigned char)*s >= 0x20) putchar(*s); } printf("\"}"); }
